@@ -159,6 +159,9 @@ def runTreeCmd (s : DState) (p : Prog) (line : String) : Option DState :=
   | ["so", z] =>
     let zeros := z != "0"
     if s.vals.any (fun v => saveVariable FloatIO v == .crash) then some (s.emit "crash model")
+    else if (saveObjectScript FloatIO p.name zeros (mkVars (slots p false) s.vals) none).isNone then
+      -- a non-static slot nested too deep: refused by the dry run, nothing touched
+      some (((s.emit s!"err Mappings and/or arrays nested too deep ({maxDepth}) for save_object").emit "so -1").emit "file unchanged")
     else
       match treeChunks s p zeros s.vals, treeChunks s p zeros (s.vals.map canonOrder) with
       | some ch, some chc =>
@@ -246,10 +249,7 @@ def runCmdFlat (s : DState) (line : String) : DState :=
     if saveObjectCrash FloatIO s.vars then s.emit "crash model"
     else if (saveObjectScript FloatIO s.progName zeros s.vars none).isNone then
       -- too_deep_save_error() raised by the dry run, before the temporary is opened: no file is touched (K7 fixed)
-      let s := (s.emit s!"err Mappings and/or arrays nested too deep ({maxDepth}) for save_object").emit "so -1"
-      match s.file with
-      | none => s.emit "file none"
-      | some _ => s.emit "file ?"
+      ((s.emit s!"err Mappings and/or arrays nested too deep ({maxDepth}) for save_object").emit "so -1").emit "file unchanged"
     else
       let s := { s with file := some (saveFileText FloatIO s.progName zeros s.vars) }
       (s.emit "so 1").emit ("file " ++ hexOf (fileCanon s.progName s.vars zeros))
